@@ -2,7 +2,7 @@
    Statements only; every proof is `exact <lemma>`. *)
 
 From CG Require Import Scalar Model.Vector Model.Point Model.Matrix Model.Angle Model.Quaternion Model.Metric Model.Rotation Model.Euler
-                       Exec.ExecQ Proofs.Alg Proofs.RealInst Proofs.C07_Euler Proofs.C07_EulerR Proofs.C07_Consts.
+                       Exec.ExecQ Proofs.Alg Proofs.RealInst Proofs.C07_Euler Proofs.C07_EulerR Proofs.C07_Consts Proofs.C07_GimbalR.
 From Coq Require Import List Ring Field QArith Qcanon Reals.
 Import ListNotations.
 Local Close Scope Q_scope.
@@ -45,6 +45,18 @@ Theorem C07_extract_gimbal : forall q : Quat R, quat_magnitude2 OpsR q = 1%R ->
      euler_of_quat OpsR TrigR q = mkEuler 0%R (- quarter_turn)%R (- Ratan2 (v3x (qv q)) (qs q) * 2)%R).
 Proof. exact euler_extract_gimbal. Qed.
 Print Assumptions C07_extract_gimbal.
+
+(* 3b. ... and the rotation rebuilt from the reported angles matches q's rotation to within 0.13 in every matrix element
+       (both cones; the true worst case is sqrt(1 - 0.998^2) ~ 0.0633 plus second-order terms, all below 0.071) *)
+Theorem C07_gimbal_bound : forall q : Quat R, quat_magnitude2 OpsR q = 1%R ->
+  ((sig < gimbal_test q)%R \/ (gimbal_test q < - sig)%R) ->
+  List.Forall2 (fun a b : R => (Rabs (a - b) <= 13 / 100)%R)
+    (m3_list (m3_of_euler OpsR TrigR (URad OpsR) (euler_of_quat OpsR TrigR q))) (m3_list (m3_of_quat OpsR q)).
+Proof. exact euler_gimbal_bound. Qed.
+Print Assumptions C07_gimbal_bound.
+Example C07_gimbal_cone_inhabited :
+  quat_magnitude2 OpsR (quat_new (70/99) (1/99) (70/99) 0)%R = 1%R /\ (sig < gimbal_test (quat_new (70/99) (1/99) (70/99) 0))%R.
+Proof. exact gimbal_cone_inhabited. Qed.
 
 Theorem C07_threshold_and_quarter_turn :
   (0 < sig < 499 / 1000)%R /\ (Rabs (quarter_turn - PI / 2) <= 1 / 10000000000000000)%R.
